@@ -243,10 +243,11 @@ theorem delRightArrive_post (P : Params K) (hp : PadOk P) (t : Nat) (key : K) (r
 theorem delGo_post (P : Params K) (hp : PadOk P) (t : Nat) (key : K) (root : Nat) (H : List Lk)
     (keep : Nat → Bool) (hkeep : ∀ x, Lk.node x ∈ H → keep x = false) (hroot : Lk.node root ∈ H)
     (s : St K V) (frames : List Frame) (n : Nat)
-    (hok : TreeOk none s.tree) (hord : s.tree.order = P.order) (hrootEq : root = s.tree.rootId)
+    (hok : TreeOk none s.tree) (h4 : 4 ≤ s.tree.order) (hord : s.tree.order = P.order)
+    (hrootEq : root = s.tree.rootId)
     (hfr : FramesOk s.tree root frames n) (hH : ∀ l ∈ framesHeld frames, l ∈ H) :
     DPost keep s (delGo P t s key frames n root).1 (delGo P t s key frames n root).2 := by
-  have hok' : TreeOk' none s.tree := hok.prime
+  have hok' : TreeOk' none s.tree := hok.prime h4
   obtain ⟨sht, hlook, _⟩ := frames_high hok.ids frames n (by rw [← hrootEq]; exact hfr)
   obtain ⟨a, hf, hsh, _⟩ := find_some_of_look hlook
   obtain ⟨d', m⟩ := a
